@@ -25,7 +25,7 @@ type C15Case struct {
 	Level    string   `json:"level"` // L1 L2 L3
 	Runs     []string `json:"runs"`  // L1: text runs; L2: pieces (text / comment) ; L3: literal bodies
 	Neighbor int      `json:"neighbor"`
-	Kinds    []string `json:"kinds,omitempty"` // L2: "text" | "line" | "block" per piece
+	Kinds    []string `json:"kinds,omitempty"`  // L2: "text" | "line" | "block" per piece
 	Header   bool     `json:"header,omitempty"` // the templates declare $x in the header ({@param}) instead of soydoc
 }
 
@@ -171,6 +171,10 @@ func checkC15(c C15Case) Verdict {
 			switch c.Kinds[i] {
 			case "line":
 				src.WriteString(" // CMT" + p + "\n")
+			case "line-cr":
+				src.WriteString(" // CMT" + p + "\r")
+			case "line-crlf":
+				src.WriteString(" // CMT" + p + "\r\n")
 			case "block":
 				src.WriteString("/* CMT" + p + " */")
 			case "blocktight":
@@ -259,7 +263,7 @@ func genC15(t *rapid.T) C15Case {
 	case 5, 6, 7:
 		c.Level = "L2"
 		for i, n := 0, rapid.IntRange(1, 6).Draw(t, "npieces"); i < n; i++ {
-			k := rapid.SampledFrom([]string{"text", "text", "line", "block", "slashtext", "blocktight"}).Draw(t, "kind")
+			k := rapid.SampledFrom([]string{"text", "text", "line", "block", "slashtext", "blocktight", "line-cr", "line-crlf"}).Draw(t, "kind")
 			switch k {
 			case "slashtext":
 				// text that begins with "//" directly after a tag, a block comment or a non-whitespace
@@ -268,7 +272,7 @@ func genC15(t *rapid.T) C15Case {
 				p := rapid.SampledFrom([]string{"//cdn.example.com/a.js", "//x", "///y"}).Draw(t, "slashtext")
 				if i > 0 {
 					prev := c.Runs[i-1]
-					if c.Kinds[i-1] == "line" || c.Kinds[i-1] == "text" && (prev == "" || strings.ContainsAny(prev[len(prev)-1:], " \t\r\n")) {
+					if strings.HasPrefix(c.Kinds[i-1], "line") || c.Kinds[i-1] == "text" && (prev == "" || strings.ContainsAny(prev[len(prev)-1:], " \t\r\n")) {
 						p = "z" + p
 					}
 				}
@@ -277,7 +281,7 @@ func genC15(t *rapid.T) C15Case {
 				c.Runs = append(c.Runs, rapid.SampledFrom([]string{"a", "b c", " d ", "\n", "  \n  ", "<p>", "http://x.y/z", "a//b", "e\n", "\nf", "x:// y", "<br>\n", " ", "é", "1/2", "ftp://h/ /p"}).Draw(t, "text"))
 			case "blocktight":
 				c.Runs = append(c.Runs, rapid.SampledFrom([]string{"", "*", "**", "***", "****", " x*", " x **", "/", "/*", " * / *", "*\n*"}).Draw(t, "cmt"))
-			case "line":
+			case "line", "line-cr", "line-crlf":
 				c.Runs = append(c.Runs, rapid.SampledFrom([]string{"", " note", " {$x} {if}", " /* not a block", " http://u"}).Draw(t, "cmt"))
 			default:
 				c.Runs = append(c.Runs, rapid.SampledFrom([]string{"", " note", "\n multi\n line\n", " {$x} {/if}", " // inner", " * stars *"}).Draw(t, "cmt"))
